@@ -8,6 +8,7 @@ name that is not a vertex.  Everything that comes out of a set/dict is canonical
 raise-vs-return is reported for exceptions ("ERR").
 """
 import sys, os, json, signal, warnings, io, contextlib, copy
+import random as _r
 
 REPO = os.environ.get("CHIPFIRING_REPO", "/repo")
 sys.path.insert(0, REPO)
@@ -54,6 +55,7 @@ class Ctx:
     """name <-> index bijection of one scenario"""
 
     def __init__(self, scn):
+        self.scn = scn
         self.n = scn["n"]
         self.names = scn.get("names") or [f"v{i}" for i in range(self.n)]
         assert len(self.names) == self.n and sorted(self.names) == list(self.names), "names must be sorted"
@@ -82,11 +84,11 @@ class Ctx:
         per graph object during the first run must not leak into the second"""
         k = scn.get("warmup")
         if k is None or WARM.get("phase") is None:
-            return CFGraph(self.vlist(scn), self.edges(scn["edges"]))
+            return self.poke(CFGraph(self.vlist(scn), self.edges(scn["edges"])), scn)
         if WARM["phase"] == 1:
             G = CFGraph(self.vlist(scn), self.edges(scn["edges"][:k]))
             WARM["G"] = G
-            return G
+            return self.poke(G, scn)
         G = WARM["G"]
         rest = self.edges(scn["edges"][k:])
         if scn.get("warm_single"):
@@ -94,11 +96,64 @@ class Ctx:
                 G.add_edge(a, b, m)
         else:
             G.add_edges(rest)
+        return self.poke(G, scn)
+
+    def poke(self, G, scn):
+        """requests that the library must refuse (C13/C20), issued against the object about to
+        be analysed; whatever they answer, the model's graph is the one described by the
+        scenario, so anything they leave behind shows up as a difference"""
+        seed = scn.get("poke")
+        if seed is None or not self.names:
+            return G
+        r = _r.Random(seed)
+        taken = set(self.names)
+        unknown = [u for u in ("\u2205late", "!early", self.names[-1] + "~", self.names[0][:-1] or "0", "zz9") if u not in taken]
+        for _ in range(r.randint(1, 4)):
+            a, b = r.choice(self.names), r.choice(self.names)
+            kind = r.choice(["unk2", "unk2", "unk1", "loop", "zero", "neg", "batch"])
+            u = r.choice(unknown)
+            if kind == "unk2":
+                call(G.add_edge, a, u, r.randint(1, 4))
+            elif kind == "unk1":
+                call(G.add_edge, u, a, r.randint(1, 4))
+            elif kind == "loop":
+                call(G.add_edge, a, a, r.randint(1, 3))
+            elif kind == "zero" and a != b:
+                call(G.add_edge, a, b, 0)
+            elif kind == "neg" and a != b:
+                call(G.add_edge, a, b, -r.randint(1, 3))
+            elif kind == "batch":
+                call(G.add_edges, [(a, u, 2), (a, b, 1)] if a != b else [(a, a, 1)])
         return G
 
     def divisor(self, G, degs, order=None):
         pairs = [(self.names[i], degs[i]) for i in (order if order is not None else range(self.n))]
-        return CFDivisor(G, pairs)
+        D = CFDivisor(G, pairs)
+        seed = self.scn.get("poke")
+        if seed is not None and self.names:
+            # refused requests against the divisor about to be used (C20): unknown destination /
+            # source, non-positive amounts, unknown vertex in a move or in a firing set
+            r = _r.Random(seed + 1)
+            taken = set(self.names)
+            unknown = [u for u in ("\u2205late", "!early", self.names[-1] + "~", "zz9") if u not in taken]
+            for _ in range(r.randint(1, 3)):
+                a, b, u = r.choice(self.names), r.choice(self.names), r.choice(unknown)
+                kind = r.choice(["to_unknown", "to_unknown", "from_unknown", "zero", "neg", "lend_unknown", "borrow_unknown", "fire_unknown"])
+                if kind == "to_unknown":
+                    call(D.chip_transfer, a, u, r.randint(1, 4))
+                elif kind == "from_unknown":
+                    call(D.chip_transfer, u, a, r.randint(1, 4))
+                elif kind == "zero":
+                    call(D.chip_transfer, a, b, 0)
+                elif kind == "neg":
+                    call(D.chip_transfer, a, b, -r.randint(1, 3))
+                elif kind == "lend_unknown":
+                    call(D.lending_move, u)
+                elif kind == "borrow_unknown":
+                    call(D.borrowing_move, u)
+                else:
+                    call(D.set_fire, {a, u})
+        return D
 
     def degs(self, D):
         return [D.degrees[Vertex(nm)] for nm in self.names]
@@ -1055,6 +1110,13 @@ def op_rt(scn):
             writer = proc.to_json if fmt == "json" else proc.to_txt
             reader = proc.read_json if fmt == "json" else proc.read_txt
             ok, _ = call(writer, obj, path)
+            if ok and os.path.exists(path):
+                # saving over an existing, longer file must replace it: leave a doubled earlier
+                # save in place and write again
+                d0 = open(path, "rb").read()
+                with open(path, "wb") as f:
+                    f.write(d0 + b"\n" + d0)
+                ok, _ = call(writer, obj, path)
             ok2, back = call(reader, path, tname if rng.random() < 0.8 else tname.upper())
             out[fmt] = obj_digest(c, kind, back) if (ok and ok2) else "ERR"
             data = open(path, "rb").read() if os.path.exists(path) else b""
